@@ -147,6 +147,39 @@ ALLOWED_WRITE_DIRS = ("internal/cpp/", "internal/python/", "internal/matlab/", "
                       "internal/cmd/initcommand.go", "pkg/packaging/cache.go")
 
 
+def rule_catalogue_layer(ctx):
+    """Every violation of a language rule in the catalogue of the C09 check (definition-level violations and ill-formed type
+    expressions in a record field), as the main package with all four outputs configured and an EMPTY output tree (a populated one
+    can hide a partial run: unchanged files are not rewritten).  These packages are invalid by the rules of the language, whatever
+    `yardl validate` says: generate must exit 1 and create nothing."""
+    import c09
+    from concurrent.futures import ThreadPoolExecutor
+    jobs = [("def:" + k, c09.BASE + text + c09.USE) for k, text in c09.BAD_DEFS]
+    jobs += [("type:" + k, c09.BASE + c09.POSITIONS["record-field"].replace("{T}", t) + c09.USE) for k, t in c09.BAD_TYPES]
+
+    def one(ij):
+        i, (name, model) = ij
+        d = os.path.join(ctx.scratch, "rc%d" % i)
+        os.makedirs(d + "/out")
+        write_pkg(d + "/main", "Main", model, CONFIGS["all"])
+        rc, o, e = sh([ctx.yardl, "generate"], cwd=d + "/main", timeout=120)
+        after = snapshot(d + "/out")
+        shutil.rmtree(d, ignore_errors=True)
+        return rc, sorted(after), (o + e)[-800:]
+    with ThreadPoolExecutor(max_workers=12) as ex:
+        res = list(ex.map(one, enumerate(jobs)))
+    for (name, model), (rc, created, out) in zip(jobs, res):
+        ctx.count("scenario", "rule-catalogue")
+        ctx.count("exit", str(rc))
+        ctx.case(("rule", name), nontrivial=True, sample={"scenario": "rule-catalogue:" + name, "config": "all", "outputs_populated_before": False,
+                                                          "exit": rc, "files_changed": len(created)})
+        if rc != 1 or created:
+            ctx.report("not-all-or-nothing:rule:" + name.split(":")[1],
+                       "`yardl generate` on a package that violates a language rule (%s) exited %d and created %d output files (%s)"
+                       % (name, rc, len(created), created[:3]),
+                       {"scenario": "rule-catalogue:" + name, "model": model, "config": CONFIGS["all"], "exit": rc, "created": created[:20], "output": out})
+
+
 def run(ctx):
     ctx.build_repo(need_hook=True)
     ok, failing, log = ctx.coq_props("C11")
@@ -167,6 +200,7 @@ def run(ctx):
         if not f.startswith(ALLOWED_WRITE_DIRS):
             ctx.report("write-site:" + f, "a file-system write site appeared outside the generator back ends: tooling/%s (it may run "
                        "before validation has completed)" % f, {"file": f, "inventory": inv, "broken": "write-site inventory"}, no_input=True)
+    rule_catalogue_layer(ctx)
     n = 0
     for name, build in scenarios(rng, quick):
         for cname, cfg in (list(CONFIGS.items()) if not quick else rng.sample(list(CONFIGS.items()), 2)):
